@@ -291,6 +291,11 @@ def gen_response(rng, idx, req, last, opts):
         if opts.get("folding") and rng.random() < 0.2:
             pieces.append(rand_value(rng) or b"y")
         m.headers.append((name, pieces))
+    if opts.get("repeat") and len(m.headers) > 1 and rng.random() < 0.3:
+        # a repeated response field: the later values are often LONGER than the field name (the combined value must hold all of them)
+        nm, _ = rng.choice(m.headers[1:])
+        for _ in range(rng.randint(1, 2)):
+            m.headers.append((nm.swapcase() if rng.random() < 0.5 else nm, [rand_value(rng) + (b" " + rand_token(rng, 6, 14) if rng.random() < 0.6 else b"")]))
     m.body = b""
     m.chunks = None
     nobody = m.status in (204, 304) or req.method == b"HEAD"
